@@ -245,11 +245,23 @@ impl World {
         }
     }
 
-    /// Fresh sources for every source name of the project.
+    /// Fresh sources for every source name of the project.  Some of them are symbolic links to a
+    /// file elsewhere: later writes through the name change the target (and its mtime), never the link.
     pub fn init_sources(&mut self, rng: &mut Rng) {
         let srcs = self.proj.sources.clone();
-        for s in srcs {
-            self.write_source(&s, rng.next());
+        for (i, s) in srcs.iter().enumerate() {
+            if rng.chance(1, 5) {
+                let store = self.dir.join(".lnk");
+                let _ = std::fs::create_dir_all(&store);
+                let target = store.join(format!("t{}", i));
+                let _ = std::fs::write(&target, b"");
+                let link = self.dir.join(s);
+                if let Some(parent) = link.parent() {
+                    let _ = std::fs::create_dir_all(parent);
+                }
+                let _ = std::os::unix::fs::symlink(&target, &link);
+            }
+            self.write_source(s, rng.next());
         }
     }
 
@@ -446,6 +458,9 @@ impl SimState {
                 && b.order_only_ins == s.oos.len()
                 && b.cmdline == cmd
                 && b.pool == s.pool;
+            if b.pool != s.pool && b.outs == outs && b.cmdline == cmd {
+                viol(&mut self.out, "C04", "pool-assignment-differs", format!("step {} is declared in pool {:?} but loaded into {:?}", s.id, s.pool, b.pool));
+            }
             if !ok {
                 let tag = if self.epoch >= 2 { "C17" } else { "HARNESS" };
                 viol(
